@@ -60,6 +60,13 @@ let handle = function
             (match c11_unsigned_error_rcode (bytes_of_hex wire) (n_of_int (int_of_n e - 100)) with
              | Ok rc -> "rcode " ^ string_of_int (int_of_n rc) | Panic _ -> "Panic" | _ -> "?")
         | _ -> "NotUnsignedError")
+  | ["serrw"; a; s; nm; mn; sg; wire; now; resp] ->
+      with_key a s nm mn sg (fun k ->
+        match c11_server_request k (bytes_of_hex wire) (num now) with
+        | Err e when int_of_n e >= 100 ->
+            out_with verr (fun w -> "Ok " ^ hex_of_bytes w)
+              (c11_unsigned_error_response (bytes_of_hex wire) (bytes_of_hex resp) (n_of_int (int_of_n e - 100)))
+        | _ -> "NotUnsignedError")
   | ["sans"; a; s; nm; mn; sg; wire; nowreq; ans; now; fudge] ->
       with_key a s nm mn sg (fun k ->
         match srv_txn k wire nowreq with
